@@ -8,7 +8,7 @@ from . import c04
 
 ID = 'C12'
 RULE = ("G1 specs (recursive specs rescaled to a finite least fixed point) + a random presentation transform: permutation of the "
-        "rule list, of node and edge insertion order in every rule, explicit vs implicit ids with renamed ids, consistent renaming of "
+        "rule list, of node and edge insertion order in every rule, top-down vs bottom-up construction (start symbol assigned after the rules),  explicit vs implicit ids with renamed ids, consistent renaming of "
         "node labels and edge labels, FiniteDomain vs RangeDomain values, and a permutation of every domain's values applied to the "
         "matching axes of all factors; oracle (metamorphic + reference): sum_product in sampled semiring/method configurations, Real/Log "
         "gradients (mapped back through the permutations) and the weight of the viterbi derivation agree between the two presentations "
@@ -17,7 +17,7 @@ RULE = ("G1 specs (recursive specs rescaled to a finite least fixed point) + a r
         "distinct by case hash")
 ASSUMPTIONS = ["only the weight of the Viterbi derivation is compared (ties may resolve differently)", "tolerances as C01/C02/C03",
                "Real/Log judged on admitted specs (finite Z, rho<=0.9)"]
-ESSENTIAL_LABELS = ['t:rule-order', 't:node-order', 't:edge-order', 't:ids', 't:names', 't:value-perm', 'recursive']
+ESSENTIAL_LABELS = ['dead-rule-first', 't:start-last', 'nonlinear-tail', 't:rule-order', 't:node-order', 't:edge-order', 't:ids', 't:names', 't:value-perm', 'recursive']
 KINDS = ['real', 'log', 'viterbi', 'bool']
 METHODS = ['fixed-point', 'newton', 'linear']
 
@@ -30,8 +30,13 @@ def budget(tier):
 def cases(draw, tier):
     rec = draw(st.booleans())
     spec = draw(gen_fgg.specs(recursive=rec, weights=(0.0, 0.25, 0.5, 0.5, 1.0, 1.0), max_nts=3, max_dom=3, max_edges=4, max_nodes=6))
+    if rec and draw(st.integers(0, 4)) == 0:
+        gen_fgg.inject_nonlinear_tail(draw, spec)      # X -> X X ... t with t (used nowhere else) after the nonterminal edges
+    if spec['rules'] and draw(st.integers(0, 4)) == 0:
+        gen_fgg.inject_dead_rule(draw, spec)           # a rule without derivations listed before the live rules of its lhs
     nr = len(spec['rules'])
     tr = {
+        'start_last': draw(st.booleans()),
         'rule_perm': list(draw(st.permutations(list(range(nr))))) if nr > 1 and draw(st.booleans()) else list(range(nr)),
         'node_perms': [list(draw(st.permutations(list(range(len(r['nodes'])))))) if len(r['nodes']) > 1 and draw(st.booleans()) else list(range(len(r['nodes']))) for r in spec['rules']],
         'edge_perms': [list(draw(st.permutations(list(range(len(r['edges'])))))) if len(r['edges']) > 1 and draw(st.booleans()) else list(range(len(r['edges']))) for r in spec['rules']],
@@ -113,7 +118,8 @@ def check(case, ctx):
     t_val = any(not ident(p) for p in tr['value_perms'].values())
     ctx.label('t:rule-order' if t_rule else None, 't:node-order' if t_node else None, 't:edge-order' if t_edge else None,
               't:ids' if tr['explicit_ids'] else None, 't:names' if tr['rename_nl'] or tr['rename_el'] else None, 't:value-perm' if t_val else None,
-              't:range-domains' if tr['range_domains'] else None)
+              't:range-domains' if tr['range_domains'] else None, 't:start-last' if tr.get('start_last') and len({r['lhs'] for r in spec['rules']}) > 1 else None,
+              'dead-rule-first' if 'D' in spec['nonterminals'] else None, 'nonlinear-tail' if any(n.startswith('tz') for n in spec['terminals']) else None)
     start = spec['start']; stype = spec['nonterminals'][start]
     # references
     def reference(kind):
@@ -136,7 +142,7 @@ def check(case, ctx):
         try:
             f1, i1 = gen_fgg.build(spec, kind, dtype)
             f2, i2 = gen_fgg.build(spec2, kind, dtype, explicit_ids=tr['explicit_ids'], range_domains=tr['range_domains'],
-                                   node_prefix=tr['id_prefix'], edge_prefix=tr['id_prefix'] + 'e')
+                                   node_prefix=tr['id_prefix'], edge_prefix=tr['id_prefix'] + 'e', start_last=tr.get('start_last', False))
         except Exception as e:
             ctx.violation('build-failed', f'{type(e).__name__}: {e}'); return
         want_grad = kind in ('real', 'log')
@@ -203,7 +209,7 @@ def check(case, ctx):
         try:
             f1, _ = gen_fgg.build(spec, 'viterbi', torch.float64)
             f2, _ = gen_fgg.build(spec2, 'viterbi', torch.float64, explicit_ids=tr['explicit_ids'], range_domains=tr['range_domains'],
-                                  node_prefix=tr['id_prefix'], edge_prefix=tr['id_prefix'] + 'e')
+                                  node_prefix=tr['id_prefix'], edge_prefix=tr['id_prefix'] + 'e', start_last=tr.get('start_last', False))
             a2 = tuple(tr['value_perms'][nl][v] for nl, v in zip(stype, a))
             vsr = fggs.ViterbiSemiring(dtype=torch.float64)
             d1 = ctx.call('viterbi[original]', fggs.viterbi, f1, tuple(a), semiring=vsr)
